@@ -451,3 +451,36 @@ def r04_12_cache_periods_stay_in_range(ctx: Ctx) -> RuleResult:
         else:
             rr.fail(f.qual, f"`{unparse(c)[:80]}`: for periods {lo >> shift}..{hi >> shift} the day number is {days}, not inside [{lo}, {hi}]: the first / last period of the timeline raises OverflowError instead of being cached", ctx.loc(f, c))
     return rr
+
+
+@rule("C04")
+def r04_13_wall_offset_decides_local_time(ctx: Ctx) -> RuleResult:
+    """Local time = instant + WALL offset; the savings component only says how the wall offset splits into standard + daylight.
+    (a) ZoneInterval derives its local start and local end with the same offset expression, the wall offset; (b) the code that
+    maps local times to instants and resolves gaps / overlaps (DateTimeZone, the resolvers, ZoneLocalMapping) never reads
+    `savings`: shifting a skipped time by the later interval's savings instead of the offset difference is right for a plain DST
+    gap and wrong for every gap caused by a change of standard time (Moscow 2011, Caracas 2016, Apia 2011)."""
+    rr = RuleResult("R04.13", "local bounds of a zone interval are instant + wall offset on both sides; local-time mapping and resolution never read `savings`", min_instances=4)
+    M = ctx.M
+    zi = M.func("ZoneInterval.__init__")
+    rr.inst()
+    args = {}
+    for n in own_nodes(zi.node):
+        if isinstance(n, (ast.Assign, ast.AnnAssign)) and n.value is not None and isinstance(n.value, ast.Call) and isinstance(n.value.func, ast.Attribute) and n.value.func.attr == "_safe_plus" and n.value.args:
+            t = n.targets[0] if isinstance(n, ast.Assign) else n.target
+            args[unparse(t).split("__")[-1]] = unparse(n.value.args[0])
+    if set(args) >= {"local_start", "local_end"} and args["local_start"] == args["local_end"] == "wall_offset":
+        rr.ok({"ZoneInterval": "local_start / local_end = start / end + wall_offset"})
+    else:
+        rr.fail(zi.qual, f"local bounds are computed with {args}: both must be the raw bound plus `wall_offset`", ctx.loc(zi))
+    for f in sorted(set(M.func_of_node.values()), key=lambda x: x.qual):
+        if f.mod.rel not in ("pyoda_time/time_zones/_resolvers.py", "pyoda_time/_date_time_zone.py", "pyoda_time/time_zones/_zone_local_mapping.py"):
+            continue
+        rr.inst()
+        nodes = ast.walk(f.node) if isinstance(f.node, ast.Lambda) else own_nodes(f.node)
+        bad = next((n for n in nodes if isinstance(n, ast.Attribute) and n.attr == "savings" and isinstance(n.ctx, ast.Load)), None)
+        if bad is None:
+            rr.ok()
+        else:
+            rr.fail(f.qual, f"`{unparse(getattr(bad, '_parent', bad))[:80]}` reads `savings` while mapping a local time: only wall offsets determine which instants render to a local time", ctx.loc(f, bad))
+    return rr
